@@ -43,12 +43,14 @@ SC(p, c) == [A0 EXCEPT !.op = "SetComment", !.p = p, !.name = c]
 \* F4: copy across versions: model 1 is V50, model 2 is V401
 \*  3 AR-PACKAGES, 4 a, 5 SN, 6 ELEMENTS, 7 SYSTEM-SIGNAL s, 8 SN (NAME-PATTERN attribute: not in V401), 9 SHORT-NAME-FRAGMENTS (not in V401),
 \*  10 I-SIGNAL i, 11 SN, 12 DATA-TYPE-POLICY = TRANSFORMING-I-SIGNAL (value not in V401), 13 SYSTEM-SIGNAL-REF -> /a/s
-\*  14 AR-PACKAGES (model 2), 15 a, 16 SN
+\*  14 I-SIGNAL j, 15 SN, 16 SYSTEM-SIGNAL-REF -> /a/s (a second reference to the same target inside the copied sub tree)
+\*  17 AR-PACKAGES (model 2), 18 a, 19 SN
 F4 == <<CF(1, "f1", "V50"), CF(2, "g1", "V401"),
         CS(1, "AR-PACKAGES"), CN(3, "AR-PACKAGE", "a"), CS(4, "ELEMENTS"),
         CN(6, "SYSTEM-SIGNAL", "s"), CS(7, "SHORT-NAME-FRAGMENTS"),
         CN(6, "I-SIGNAL", "i"), CS(10, "DATA-TYPE-POLICY"), ST(12, EVal("TRANSFORMING-I-SIGNAL")), CS(10, "SYSTEM-SIGNAL-REF"), SR(13, 7),
+        CN(6, "I-SIGNAL", "j"), CS(14, "SYSTEM-SIGNAL-REF"), SR(16, 7),
         SA(8, "NAME-PATTERN", SVal("x")), SC(7, "cmt"),
-        CS(2, "AR-PACKAGES"), CN(14, "AR-PACKAGE", "a")>>
+        CS(2, "AR-PACKAGES"), CN(17, "AR-PACKAGE", "a")>>
 AttrValuesDef == {<<"UUID", SVal("u1")>>, <<"DEST", EVal("SYSTEM-SIGNAL")>>, <<"DEST", EVal("I-SIGNAL")>>, <<"NAME-PATTERN", SVal("x")>>}
 =============================================================================
